@@ -32,6 +32,21 @@ def case_of(res, scenario) -> dict:
     return {"scenario": scenario, "schedule": res.schedule}
 
 
+def read_signature(ev, lo: int, hi: int) -> str:
+    """Order in which a status request (webapi events lo..hi) read the shared state: S = shutdown event,
+    R = resume event, F = a thread's paused flag; repeated letters collapsed. The unchanged
+    `get_current_status` reads controller-then-flags: `SRF` (`SR` / `S` when it needs no flag). A known
+    finding about the status endpoint is tied to this read order, so that a status provider that reads
+    differently and fails differently is reported afresh."""
+    sig = ""
+    for th, kind, obj, _v in ev[lo:hi + 1]:
+        if th == "webapi" and kind == "read":
+            c = "S" if obj == "shutdown" else "R" if obj == "resume" else "F" if obj.startswith("paused[") else "?"
+            if not sig.endswith(c):
+                sig += c
+    return sig or "none"
+
+
 def c01(res, scenario) -> list[Violation]:
     """Acknowledged pause => every background thread quiescent, clock frozen."""
     out: list[Violation] = []
@@ -110,7 +125,10 @@ def c01(res, scenario) -> list[Violation]:
         elif th == "webapi" and kind == "http" and obj == "GET /api/status":
             status, body = val
             if status == 200 and body and body.get("status") == 3 and ctl_phase in ("pausing", "paused"):
-                open_window("status", i)
+                lo = i
+                while lo > 0 and not (res.events[lo - 1][0] == "webapi" and res.events[lo - 1][1] == "http"):
+                    lo -= 1
+                open_window("status-" + read_signature(res.events, lo, i), i)
     return out
 
 
@@ -505,11 +523,24 @@ def c17(res, scenario) -> list[Violation]:
                     if not ok:
                         seq = sorted({status_table(h[0], h[1], list(h[2])) for h in hist[lo:i + 1]})
                         out.append(Violation(
-                            f"c17:status:{STATUS.get(reply, reply)}-never-true",
+                            f"c17:status-{read_signature(ev, lo, i)}:{STATUS.get(reply, reply)}-never-true",
                             f"status request (events {lo}..{i}) answered {STATUS.get(reply, reply)} but the "
                             f"flags only ever mapped to {[STATUS[s] for s in seq]} during the request", case))
                 elif method == "POST" and status not in (200, 503):
                     out.append(Violation("c17:http-code", f"{obj} answered {status}", case))
+                elif method == "POST":
+                    # 200 = the command was put on the queue (exactly once), 503 = it was not
+                    name = {"/api/pause": "PAUSE", "/api/resume": "RESUME", "/api/shutdown": "SHUTDOWN",
+                            "/api/save-state": "SAVE_STATE"}[path]
+                    acc = [e2[2] for e2 in ev[last:i] if e2[0] == "webapi" and e2[1] == "cmd_accept"]
+                    rej = [e2[2] for e2 in ev[last:i] if e2[0] == "webapi" and e2[1] == "cmd_reject"]
+                    if status == 200 and acc != [name]:
+                        out.append(Violation("c17:accepted-not-queued",
+                                             f"{obj} answered 200 but queued {acc or 'nothing'} "
+                                             f"(an accepted command must be queued exactly once)", case))
+                    if status == 503 and (acc or rej != [name]):
+                        out.append(Violation("c17:rejected-but-queued",
+                                             f"{obj} answered 503 but queued {acc} / rejected {rej}", case))
             else:
                 want = 405 if path in paths else 404
                 if path in paths and method == "HEAD":
